@@ -100,6 +100,12 @@ fn cli_matrix(quick: bool) -> Vec<CliOpts> {
     muts.push(vec!["stringlen".into(), "character".into()]);
     muts.push(vec!["offbyone".into(), "bitflip".into(), "offbyone".into()]);
     muts.push(vec!["offbyone".into(), "memoindex".into(), "typeconfusion".into()]);
+    // the "all" meta value together with explicit names, in either order and repeated: it stands for the whole documented
+    // set and absorbs the names next to it
+    muts.push(vec!["all".into(), "bitflip".into()]);
+    muts.push(vec!["offbyone".into(), "all".into()]);
+    muts.push(vec!["all".into(), "all".into()]);
+    muts.push(vec!["memoindex".into(), "all".into(), "typeconfusion".into()]);
     let rates: Vec<Option<f64>> = vec![None, Some(0.0), Some(0.5), Some(1.0), Some(7.5)];
     let mut v = vec![];
     if quick {
@@ -329,6 +335,8 @@ pub fn c13(tier: &str) -> i32 {
             v.push((vec![("INPUT_MUTATORS", "bitflip, character".into())], CliOpts { mutators: vec!["bitflip".into(), "character".into()], ..b.clone() }));
             v.push((vec![("INPUT_MUTATORS", "all".into()), ("INPUT_MUTATION_RATE", "1.0".into())], CliOpts { mutators: vec!["all".into()], rate: Some(1.0), ..b.clone() }));
             v.push((vec![("INPUT_MUTATORS", "all".into()), ("INPUT_UNSAFE_MUTATIONS", "true".into()), ("INPUT_MUTATION_RATE", "0.5".into())], CliOpts { mutators: vec!["all".into()], unsafe_mut: true, rate: Some(0.5), ..b.clone() }));
+            v.push((vec![("INPUT_MUTATORS", "all,bitflip".into()), ("INPUT_MUTATION_RATE", "1.0".into())], CliOpts { mutators: vec!["all".into(), "bitflip".into()], rate: Some(1.0), ..b.clone() }));
+            v.push((vec![("INPUT_MUTATORS", "offbyone, all".into()), ("INPUT_UNSAFE_MUTATIONS", "true".into()), ("INPUT_MUTATION_RATE", "0.5".into())], CliOpts { mutators: vec!["offbyone".into(), "all".into()], unsafe_mut: true, rate: Some(0.5), ..b.clone() }));
             v.push((vec![("INPUT_MUTATORS", "offbyone, bitflip".into()), ("INPUT_MUTATION_RATE", "1.0".into())], CliOpts { mutators: vec!["offbyone".into(), "bitflip".into()], rate: Some(1.0), ..b.clone() }));
             v.push((vec![("INPUT_MUTATORS", "stringlen,character,boundary".into()), ("INPUT_MUTATION_RATE", "0.5".into())], CliOpts { mutators: vec!["stringlen".into(), "character".into(), "boundary".into()], rate: Some(0.5), ..b.clone() }));
             v.push((vec![("INPUT_MUTATORS", "offbyone,bitflip,offbyone".into()), ("INPUT_MUTATION_RATE", "0.5".into())], CliOpts { mutators: vec!["offbyone".into(), "bitflip".into(), "offbyone".into()], rate: Some(0.5), ..b.clone() }));
